@@ -16,7 +16,11 @@ def run(ctx):
     forests = binlib.boundary_forests() + binlib.gen_forests(ctx, ctx.scale(1500, 40000))
     lines, exp = [], []
     for f in forests:
-        lines.append("bw - " + " ".join(iongen.calls_of_forest(f, rng)))
+        calls = iongen.calls_of_forest(f, rng)
+        if rng.random() < 0.15:
+            # an annotation left pending at Finish is dropped: the values written are unchanged
+            calls = calls[:-1] + ["AN", iongen.tok(rng.choice([b"pending", b"$ion_symbol_table", b"x"]))] + ["FIN"]
+        lines.append("bw - " + " ".join(calls))
         exp.append(iongen.show_forest(f))
     mo, go = ctx.correspond("K3-binwriter", lines, nontrivial=lambda ln, m: m.startswith("ok"))
     parsed = [binlib.parse_bw(g) for g in go]
@@ -24,6 +28,8 @@ def run(ctx):
     dec = binlib.sdecode_many(hexes)
     n_ok = 0
     for ln, e, p, d, g in zip(lines, exp, parsed, dec, go):
+        if oracle_silent(ctx, "C04-binary-oracle", ln, d):
+            continue
         if p is None or "0" in p[0]:
             ctx.fail("property", "C04-binary-oracle", ln, "a legal call sequence was refused or crashed: " + g[:200], classify_case(ln, e, d))
         elif d is None:
